@@ -271,7 +271,7 @@ impl SeqModel for C07 {
         let env = Env::from_store(s.store.clone());
         let repo = env.open_ids().map_err(|e| ("C07/open".to_string(), e.display_log()))?;
         let label = format!("s{}", s.n);
-        let snap = backup_with(&repo, &MemSource::new("r", n.tree.clone()), &label, T0 + 1000 + s.n as i64, &BackupOptions::default())
+        let snap = backup_with(&repo, &MemSource::new("r", n.tree.clone()), &label, T0 + 1000 + s.n as i64, &vkit::rep::bopts())
             .map_err(|e| ("C07/backup/error".to_string(), e.display_log()))?;
         n.store = env.store();
         n.n += 1;
